@@ -108,4 +108,4 @@ def nontrivial(req, ans):
 
 LEVEL = "proof"
 LEVEL_TEXT = ("Lean 4 theorems for ALL octet strings / contents / arcs: Oid::from_str equals the reference parser on EVERY string - the X.690 encoding of the arcs or an error, never a panic (fromStr_eq_spec; u32 parsing with early abort = all-digits-then-range, parseU32_eq; sub-identifier writer = base-128 digits, encodeItem_eq); content is accepted by take and skip alike exactly when non-empty with the last octet ending a sub-identifier, match-and-skip succeeds iff the content equals the expected octets (checkContent_iff, fromPrimitive_exhausted, skipPrimitive_exhausted, skipIfPrimitive_exhausted, take_skip_alike); the component iterator of an accepted content yields the sub-identifiers with the first one twice, without panic (components_eq, components_ok_iff); Component::to_u32 returns the arc when the sub-identifier fits 32 bits and None otherwise - never a wrong number (toU32_eq, toU32_base128, numbers_arcs); Display prints the dotted decimal text of those numbers (decimal_eq, display_numbers, display_arcs); round trips text -> encoding -> arcs/text -> encoding (fromStr_some, display_fromStr, fromStr_dotted, fromStr_display_fromStr). Correspondence: arcs around 39/40/79/80/127/128/2^28/2^32 boundaries, malformed texts, 5- and 6-octet sub-identifiers, truncated contents.")
-LEVEL_NOTE = ("Trusted: Lean 4.33 kernel; axioms propext, Classical.choice, Quot.sound only; the hand-written model (lean/Bcder/Model/Oid.lean) tied to /repo on every run by differential correspondence; reference definitions lean/Bcder/Spec/Values.lean. Comparison and hashing of Oid delegate to the content octets in Rust and have no model item: covered by the correspondence check only. Non-minimal sub-identifiers (leading 0x80) are outside the property's hypothesis; toU32_eq still states exactly what is returned for them.")
+LEVEL_NOTE = ("Trusted: Lean 4.33 kernel; axioms propext, Classical.choice, Quot.sound only; the hand-written model (lean/Bcder/Model/Oid.lean) tied to /repo on every run by differential correspondence; reference definitions lean/Bcder/Spec/Values.lean. Comparison and hashing of Oid delegate to the content octets (Oid.eq, Oid.hashInput; eq_iff_content, hash_content, hashInput_inj); the Hasher itself is not modelled. Non-minimal sub-identifiers (leading 0x80) are outside the property's hypothesis; toU32_eq still states exactly what is returned for them.")
